@@ -124,23 +124,35 @@ def render_inst(c):
     return f'<COMPARAM-REF ID-REF="{c["id"]}" DOCREF="{c["doc"]}" DOCTYPE="COMPARAM-SUBSET">{v}{d}{p}</COMPARAM-REF>'
 
 
+def render_layer(h, L):
+    cr = f"<COMPARAM-REFS>{''.join(render_inst(c) for c in L['insts'])}</COMPARAM-REFS>" if L["insts"] else ""
+    pr = "".join(render_parent_ref(h, p) for p in L["parents"])
+    pr = f"<PARENT-REFS>{pr}</PARENT-REFS>" if pr else ""
+    cs = '<COMPARAM-SPEC-REF ID-REF="VCSPEC" DOCREF="VCSPEC" DOCTYPE="COMPARAM-SPEC"/>' if L["kind"] == "PROTOCOL" else ""
+    return f'<{L["kind"]} ID="{L["name"]}"><SHORT-NAME>{L["name"]}</SHORT-NAME>{cr}{cs}{pr}</{L["kind"]}>'
+
+
+def render_parent_ref(h, p):
+    return f'<PARENT-REF ID-REF="{h["layers"][p]["name"]}" xsi:type="{h["layers"][p]["kind"]}-REF"/>'
+
+
 def render_layers(h):
     body = {k: "" for k in KINDS}
     for L in h["layers"]:
-        cr = f"<COMPARAM-REFS>{''.join(render_inst(c) for c in L['insts'])}</COMPARAM-REFS>" if L["insts"] else ""
-        pr = "".join(f'<PARENT-REF ID-REF="{h["layers"][p]["name"]}" xsi:type="{h["layers"][p]["kind"]}-REF"/>' for p in L["parents"])
-        pr = f"<PARENT-REFS>{pr}</PARENT-REFS>" if pr else ""
-        cs = '<COMPARAM-SPEC-REF ID-REF="VCSPEC" DOCREF="VCSPEC" DOCTYPE="COMPARAM-SPEC"/>' if L["kind"] == "PROTOCOL" else ""
-        body[L["kind"]] += f'<{L["kind"]} ID="{L["name"]}"><SHORT-NAME>{L["name"]}</SHORT-NAME>{cr}{cs}{pr}</{L["kind"]}>'
+        body[L["kind"]] += render_layer(h, L)
     inner = "".join(f"<{TAGS[k]}>{body[k]}</{TAGS[k]}>" for k in ["PROTOCOL", "FUNCTIONAL-GROUP", "ECU-SHARED-DATA", "BASE-VARIANT", "ECU-VARIANT"] if body[k])
     return f'{ODX_HEAD}<DIAG-LAYER-CONTAINER ID="DLC"><SHORT-NAME>DLC</SHORT-NAME>{inner}</DIAG-LAYER-CONTAINER></ODX>'
 
 
-def load(h):
-    """through the real XML loader"""
+def docs_of(h):
+    return {c["doc"] for L in h["layers"] for c in L["insts"]}
+
+
+def load(h, docs=None):
+    """through the real XML loader; `docs` = the shipped subsets to load (default: those the document refers to)"""
     from odxtools.database import Database
     db = Database()
-    docs = {c["doc"] for L in h["layers"] for c in L["insts"]}
+    docs = docs_of(h) if docs is None else docs
     for name, (root, _) in shipped().items():
         if name in docs:
             db._process_xml_tree(root)
@@ -203,15 +215,27 @@ def names_of(h):
     return ns + ["CP_NoSuchParameter", used[0][:-1], used[0] + "X", used[-1].lower(), "CP_Baudrat", ""]
 
 
+def layer_map(db, live=False):
+    """short name -> layer object, from the per-kind lists of the database (these follow the containers on every refresh());
+    live=True: from the containers themselves (for edits between two refresh() calls)"""
+    m = {}
+    for src in (db.diag_layer_containers if live else [db]):
+        for lst in (src.ecu_shared_datas, src.protocols, src.functional_groups, src.base_variants, src.ecu_variants):
+            for lay in lst:
+                m[lay.short_name] = lay
+    return m
+
+
 def observe(h, db):
     """per non-ESD layer: everything C15 speaks about, as plain data; exceptions become data"""
     out = {}
     by_obj = {}
     problems = []
+    layers = layer_map(db)
     for i, L in enumerate(h["layers"]):
         if L["kind"] == "ECU-SHARED-DATA":
             continue
-        raw = db.diag_layers[L["name"]].hierarchy_element_raw.comparam_refs
+        raw = layers[L["name"]].hierarchy_element_raw.comparam_refs
         if len(raw) != len(L["insts"]):
             problems.append(("raw-count", i))
         for c, o in zip(L["insts"], raw):
@@ -232,7 +256,7 @@ def observe(h, db):
         for i, L in enumerate(h["layers"]):
             if L["kind"] == "ECU-SHARED-DATA":
                 continue
-            lay = db.diag_layers[L["name"]]
+            lay = layers[L["name"]]
             o = {}
             try:
                 o["refs"] = [(by_obj.get(id(c), -1), c.spec_ref.ref_id, c.protocol_snref, c.value, c.short_name) for c in lay.comparam_refs]
@@ -245,7 +269,7 @@ def observe(h, db):
                         r = lay.get_comparam(n, protocol=p)
                         r = None if r is None else by_obj.get(id(r), -1)
                         if p in prot_layers:   # a Protocol object means its short name
-                            r2 = lay.get_comparam(n, protocol=db.diag_layers[p])
+                            r2 = lay.get_comparam(n, protocol=layers[p])
                             r2 = None if r2 is None else by_obj.get(id(r2), -1)
                             if r2 != r:
                                 problems.append(("protocol-object", i, n, p))
@@ -289,6 +313,178 @@ def observe(h, db):
             o["vals"] = vals
             out[i] = o
     return out, problems, names, protos
+
+
+# ----------------------------------------------------------------------------- edit histories
+#
+# A *history* is {"h0": <document>, "observe0": bool, "steps": [{"ops": [<op> …], "observe": bool} …]}: the document is loaded,
+# then every step edits the LIVE objects of the database (the way examples/mksomersaultmodifiedpdx.py edits a database) and calls
+# Database.refresh(); "observe" says whether all lookups are made in that state (the last state is always observed).
+# The property speaks about "every layer hierarchy": after refresh() the answers must be those of the hierarchy as it is now.
+#   <op> = {"op": "add",     "layer": i, "pos": k, "inst": <inst>, "style": "inplace"|"rebind"}   new COMPARAM-REF object
+#        | {"op": "del",     "layer": i, "pos": k, "style": …}
+#        | {"op": "replace", "layer": i, "pos": k, "inst": <inst>}                                 another object in the same slot
+#        | {"op": "set",     "layer": i, "pos": k, "field": "value"|"proto"|"stack"|"id", "to": …[, "form": …]}   attribute of the existing object
+#        | {"op": "swap",    "layer": i, "a": k1, "b": k2}                                          document order inside a layer
+#        | {"op": "parents", "layer": i, "to": [index …], "style": …}                               add / remove / reorder parent refs
+#        | {"op": "dflt",    "id": id of a simple (sub-)parameter of the generated subset, "to": str}   PHYSICAL-DEFAULT-VALUE
+#        | {"op": "layer",   "layer": <layer>}                                                       a new layer (appended; parents = older layers)
+# "style": "inplace" mutates the existing Python list, "rebind" assigns a new list to the attribute of the raw layer.
+
+def copy_desc(h):
+    return {"custom": h["custom"], "layers": [{**L, "parents": list(L["parents"]), "insts": [dict(c) for c in L["insts"]]} for L in h["layers"]]}
+
+
+def _find_spec_entry(entries, id_):
+    for e in entries:
+        if e[1] == id_:
+            return e
+        if e[0] == "C":
+            r = _find_spec_entry(e[3], id_)
+            if r is not None:
+                return r
+    return None
+
+
+def edit_desc(h, op):
+    """the edited document description (the input is not modified)"""
+    import json
+    h = copy_desc(h)
+    k = op["op"]
+    if k == "dflt":
+        h["custom"] = json.loads(json.dumps(h["custom"]))
+        _find_spec_entry(h["custom"], op["id"])[3] = op["to"]
+        return h
+    if k == "layer":
+        h["layers"].append(json.loads(json.dumps(op["layer"])))
+        return h
+    L = h["layers"][op["layer"]]
+    if k == "add":
+        L["insts"].insert(op["pos"], dict(op["inst"]))
+    elif k == "del":
+        del L["insts"][op["pos"]]
+    elif k == "replace":
+        L["insts"][op["pos"]] = dict(op["inst"])
+    elif k == "set":
+        c = L["insts"][op["pos"]]
+        c[op["field"]] = op["to"]
+        if op["field"] == "id":
+            c["doc"] = op["doc"]
+        if "form" in op:
+            c["form"] = op["form"]
+        if op["field"] == "stack" and op["to"] is None:
+            del c["stack"]
+    elif k == "swap":
+        L["insts"][op["a"]], L["insts"][op["b"]] = L["insts"][op["b"]], L["insts"][op["a"]]
+    elif k == "parents":
+        L["parents"] = list(op["to"])
+    else:
+        raise ValueError(k)
+    return h
+
+
+def _et(xml):
+    return ET.fromstring(f'<X xmlns:xsi="http://www.w3.org/2001/XMLSchema-instance">{xml}</X>')[0]
+
+
+def _set_list(obj, attr, new, style):
+    if style == "rebind":
+        setattr(obj, attr, new)
+    else:
+        getattr(obj, attr)[:] = new
+
+
+def _walk_specs(subset):
+    todo = list(subset.comparams) + list(subset.complex_comparams)
+    while todo:
+        s = todo.pop()
+        yield s
+        todo.extend(getattr(s, "subparams", []))
+
+
+def edit_live(h, db, op):
+    """apply `op` to the objects of the loaded database; `h` describes the database BEFORE the op. New objects are made by the
+    real `from_et` constructors from the same XML a document would contain. The caller calls db.refresh() afterwards."""
+    from odxtools.comparaminstance import ComparamInstance
+    from odxtools.odxlink import OdxLinkRef
+    from odxtools.parentref import ParentRef
+    k = op["op"]
+    if k == "dflt":
+        for sub in db.comparam_subsets:
+            if sub.short_name == "VCS":
+                for s in _walk_specs(sub):
+                    if s.odx_id.local_id == op["id"]:
+                        s.physical_default_value = op["to"]
+        return
+    if k == "layer":
+        from odxtools.diaglayers.basevariant import BaseVariant
+        from odxtools.diaglayers.ecuvariant import EcuVariant
+        from odxtools.diaglayers.functionalgroup import FunctionalGroup
+        from odxtools.diaglayers.protocol import Protocol
+        L = op["layer"]
+        cls, attr = {"PROTOCOL": (Protocol, "protocols"), "FUNCTIONAL-GROUP": (FunctionalGroup, "functional_groups"),
+                     "BASE-VARIANT": (BaseVariant, "base_variants"), "ECU-VARIANT": (EcuVariant, "ecu_variants")}[L["kind"]]
+        dlc = db.diag_layer_containers[0]
+        getattr(dlc, attr).append(cls.from_et(_et(render_layer(h, L)), dlc.odx_id.doc_fragments))
+        return
+    L = h["layers"][op["layer"]]
+    lay = layer_map(db, live=True)[L["name"]]
+    raw = lay.diag_layer_raw
+    frags = lay.odx_id.doc_fragments
+    mk = lambda c: ComparamInstance.from_et(_et(render_inst(c)), frags)
+    cur = list(raw.comparam_refs) if k != "parents" else None
+    if k == "add":
+        cur.insert(op["pos"], mk(op["inst"]))
+        _set_list(raw, "comparam_refs", cur, op.get("style"))
+    elif k == "del":
+        del cur[op["pos"]]
+        _set_list(raw, "comparam_refs", cur, op.get("style"))
+    elif k == "replace":
+        raw.comparam_refs[op["pos"]] = mk(op["inst"])
+    elif k == "swap":
+        a, b = op["a"], op["b"]
+        raw.comparam_refs[a], raw.comparam_refs[b] = raw.comparam_refs[b], raw.comparam_refs[a]
+    elif k == "set":
+        o = raw.comparam_refs[op["pos"]]
+        f = op["field"]
+        if f == "value":
+            o.value = op["to"] if isinstance(op["to"], str) else _live_value(op["to"])
+        elif f == "proto":
+            o.protocol_snref = op["to"]
+        elif f == "stack":
+            o.prot_stack_snref = op["to"]
+        elif f == "id":
+            o.spec_ref = OdxLinkRef.from_et(_et(f'<R ID-REF="{op["to"]}" DOCREF="{op["doc"]}" DOCTYPE="COMPARAM-SUBSET"/>'), frags)
+        else:
+            raise ValueError(f)
+    elif k == "parents":
+        old = list(raw.parent_refs)
+        pool = {}
+        for p, o in zip(L["parents"], old):
+            pool.setdefault(p, []).append(o)
+        new = []
+        for p in op["to"]:                      # parent refs that stay keep their object, others are new objects
+            if pool.get(p):
+                new.append(pool[p].pop(0))
+            else:
+                new.append(ParentRef.from_et(_et(render_parent_ref(h, p)), frags))
+        _set_list(raw, "parent_refs", new, op.get("style"))
+    else:
+        raise ValueError(k)
+
+
+def _live_value(v):
+    return [x if isinstance(x, str) else _live_value(x) for x in v]
+
+
+def history_states(hist):
+    states = [hist["h0"]]
+    for st in hist["steps"]:
+        h = states[-1]
+        for op in st["ops"]:
+            h = edit_desc(h, op)
+        states.append(h)
+    return states
 
 
 # ----------------------------------------------------------------------------- s-expressions
